@@ -6,6 +6,8 @@ import SnootyVerif.Gen.Dispatch
 import SnootyVerif.Gen.NodeKinds
 import SnootyVerif.Gen.Emitted
 import SnootyVerif.Gen.Enum
+import SnootyVerif.Gen.VisitPaths
+import SnootyVerif.Proofs.Visitor
 
 /-!
 # C01 — Parsing is total: any source text yields an AST plus diagnostics
@@ -22,6 +24,13 @@ Four layers, each tied to the code:
 3. **Enumerators** (`roman.py`, `Body.parse_enumerator`): the greedy conversions over the generated numeral map.
 4. **Line loop** (`StateMachine.run_sm`): terminates within `4·lines + 6` iterations under the `Progress` contract, which the
    harness monitors on every real parse.
+
+5. **The visitor's node stack** (`Node.walkabout` + the push/pop bookkeeping of `dispatch_visit` / `dispatch_departure`,
+   `Model/Visitor.lean`): every control-flow path of every branch is TRANSLATED on each run (`Gen/VisitPaths.lean`) and
+   `decide`d to keep pushes and pops paired; for EVERY doctree whose nodes had such outcomes the walk never pops an empty
+   stack, never trips the definition-term assertion, and builds exactly the tree of a stack-free specification
+   (`visitor_stack_spec`, by induction over the tree). The harness compares, on every real parse, the outcome observed on
+   each doctree node with the translated table and the attach events of the real visitor with the model's.
 
 What is NOT modelled (regular expressions of `Inliner`/`Body`, each directive's `run()`, departure handlers) is covered by
 the grammar-based fuzz of `harness/props/c01.py` only.
@@ -277,5 +286,96 @@ example : validate asciiEnv .length (some ['1','.','2','.','3']) = .error .Value
 example : validate asciiEnv (.union [.nonnegativeInteger, .flag]) (some ['x']) = .error .ValueError := by decide +kernel
 example : validate asciiEnv (.union [.nonnegativeInteger, .flag]) none = .ok (.bool true) := by decide +kernel
 end nonvacuity
+
+/-! ## 5. the visitor's node stack -/
+
+section VisitorStack
+open SnootyVerif.Visitor
+
+/-- does `dispatch_departure` return at once for a node whose branch tests `classes`? (`isinstance(node, departSkipClasses)`
+is decided per branch: the branch key is the class the node is an instance of) -/
+def branchDepartSkip (classes : List String) : Bool := classes.any (fun c => Gen.departSkipClasses.contains c)
+
+/-- paths that do not keep the pairing, each with the reason it cannot be taken on a doctree the state machine builds.
+A new unpaired path anywhere in `dispatch_visit` breaks `visit_paths_balanced`. -/
+def justifiedPaths : List (String × Nat × String × String) :=
+  [ -- `node["names"][0]` raising IndexError: Body.substitution_def always appends the normalised name before the node is
+    -- attached (monitored: no substitution_definition node of a real parse has an empty `names`)
+    ("nodes.substitution_definition", 0, "normal", "except IndexError") ]
+
+def unbalancedPaths : List (String × Nat × String × String) :=
+  (Gen.visitPaths.flatMap (fun (b : List String × List (Nat × String × String)) =>
+    (b.2.filter (fun p => !pathBalanced (branchDepartSkip b.1) p)).map (fun p => (b.1.headD "", p.1, p.2.1, p.2.2))))
+  ++ (Gen.visitPathsElse.filter (fun p => !pathBalanced false p)).map (fun p => ("<else>", p.1, p.2.1, p.2.2))
+
+/-- **every way through `dispatch_visit` keeps pushes and pops paired** (table regenerated from the source on every run):
+a path that returns normally or skips the children pushed exactly one node; a path that raises SkipNode / SkipDeparture
+pushed none; no path raises anything else. The only exceptions are the justified ones. -/
+theorem visit_paths_balanced : ∀ p ∈ unbalancedPaths, p ∈ justifiedPaths := by decide +kernel
+
+/-- `dispatch_departure` is `if len(state) == 1 or isinstance(node, …): return` followed by exactly one unconditional
+`state.pop()`, pushes nothing, and no other method of the visitor classes touches the stack. -/
+theorem departure_shape :
+    Gen.departLenOneGuard = true ∧ Gen.departPopsTop = 1 ∧ Gen.departPopsAll = 1 ∧ Gen.departFirstIsPop = true
+    ∧ Gen.departPushes = 0 ∧ Gen.departOtherWrites = []
+    ∧ ∀ m ∈ Gen.stateMutators, m ∈ ["dispatch_visit", "dispatch_departure"] := by decide +kernel
+
+/-- **The stack is a faithful tree builder, for every doctree.** If the outcome of `dispatch_visit` on every node is one
+of the paired ones (`balanced`) and terms are handed to definition list items only (`termsOk`), then walking any node
+from any non-empty stack succeeds, leaves everything below the top untouched, and hands the top exactly the nodes of the
+stack-free specification `emit`, in document order. -/
+theorem visitor_stack_spec (d : DNode) (top : T) (rest : List T) (hb : balanced d = true) (ht : termsOk top.kind d = true) :
+    walk (top :: rest) d = .ok (attachAllT top (emit d) :: rest) := walk_spec d top rest hb ht
+
+/-- the whole document: the walk starts from the empty stack, never raises, and returns the root built by the specification -/
+theorem visitor_document_total (id : Nat) (kind : AKind) (cs : List DNode) (hb : balancedL cs = true) (ht : termsOkL kind cs = true) :
+    walkDoc (.mk id 1 .normal kind false cs) = .ok (attachAllT (.mk id kind [] []) (emitL cs)) := walkDoc_spec id kind cs hb ht
+
+/-- nothing is invented: every AST node stems from a doctree node of the subtree it was built from -/
+theorem visitor_ids_from_doctree (d : DNode) (i : Nat) (h : i ∈ idsL (emit d)) : i ∈ d.ids := emit_ids_mem d i h
+
+/-- **reading order** (C03): for containers that keep their children, the AST read depth-first is a subsequence of the
+doctree read depth-first — nothing reordered, nothing duplicated -/
+theorem visitor_reading_order (d : DNode) (h : plain d = true) : (idsL (emit d)).Sublist d.ids := emit_ids_sublist d h
+
+/- non-vacuity and the failure modes the hypotheses exclude -/
+
+/-- a section with a title and a paragraph holding text, an emphasis and a skipped system message -/
+def demoDoc : DNode :=
+  .mk 0 1 .normal .parent false
+    [ .mk 1 1 .normal .parent false
+        [ .mk 2 1 .normal .parent false [.mk 3 1 .normal .leaf false []],
+          .mk 4 1 .normal .parent false
+            [ .mk 5 1 .normal .leaf false [], .mk 6 1 .normal .parent false [.mk 7 1 .normal .leaf false []],
+              .mk 8 0 .skipNode .parent false [.mk 9 1 .normal .leaf false []] ] ] ]
+
+example : balanced demoDoc = true ∧ plain demoDoc = true := by decide
+example : (walkDoc demoDoc).map T.ids = .ok [0, 1, 2, 3, 4, 5, 6, 7] := by decide
+
+/-- a definition list: term and definition (whose departure returns early) under an item -/
+def demoDl : DNode :=
+  .mk 0 1 .normal .parent false
+    [ .mk 1 1 .normal .parent false
+        [ .mk 2 1 .normal .dlItem false
+            [ .mk 3 1 .normal .term false [.mk 4 1 .normal .leaf false []],
+              .mk 5 0 .normal .parent true [.mk 6 1 .normal .parent false [.mk 7 1 .normal .leaf false []]] ] ] ]
+
+example : balanced demoDl = true ∧ termsOk .parent demoDl = true := by decide
+example : (walkDoc demoDl).map T.ids = .ok [0, 1, 2, 4, 6, 7] := by decide
+
+/-- **what an unpaired path does** (the `.. todo::` defect repaired earlier: nothing pushed, normal return): the
+departure pops the ENCLOSING node early; the sibling that follows is attached one level too high. -/
+theorem unbalanced_misnests :
+    let todo : DNode := .mk 2 0 .normal .parent false []
+    let doc : DNode := .mk 0 1 .normal .parent false [.mk 1 1 .normal .parent false [todo, .mk 3 1 .normal .leaf false []]]
+    balanced doc = false ∧
+    (walkDoc doc).map (fun t => t.cs.map (fun c => (c.id, c.cs.map T.id))) = .ok [(1, []), (3, [])]
+    ∧ (emit doc).map (fun t => t.cs.map (fun c => (c.id, c.cs.map T.id))) = [[(1, [3])]] := by decide
+
+/-- a term outside a definition list item trips the assertion -/
+theorem stray_term_asserts :
+    (walkDoc (.mk 0 1 .normal .parent false [.mk 1 1 .normal .term false []])).map T.ids = .error .assertionError := by decide
+
+end VisitorStack
 
 end SnootyVerif.C01
